@@ -203,7 +203,7 @@ class VideoPlayer(HTMLHandlerBase):
             title = stream_model.title
             if stream_model.timing_reference is None:
                 flask.flash(
-                    f'The timing reference needs to be set for stream "{current_stream.title}"',
+                    f'The timing reference needs to be set for stream "{stream_model.title}"',
                     "error",
                 )
                 return flask.redirect(flask.url_for("home"))
@@ -216,7 +216,11 @@ class VideoPlayer(HTMLHandlerBase):
                 )
             title = multi_period.title
         app_cfg = flask.current_app.config["DASH"]
-        manifest += ".mpd"
+        if not manifest.endswith(".mpd"):
+            manifest += ".mpd"
+        if manifest not in manifests.manifest_map:
+            return flask.make_response(
+                f"Unknown manifest: {html.escape(manifest)}", 404)
         context = self.create_context(title=title)
         try:
             options = self.calculate_options(mode, flask.request.args)
